@@ -652,6 +652,43 @@ pub fn gen_envs(rng: &mut Rng, program: &[Stmt], inputs_json: &str) -> Vec<Scena
                 if cands.is_empty() {
                     continue;
                 }
+                if rng.chance(1, 2) {
+                    // every literal in a strict position of one statement bound to a name at once:
+                    // behaviour keyed on the syntactic form of an operand (a fast path for
+                    // literal arguments, folding at conversion time) shows as a difference
+                    let i = *rng.pick(&cands);
+                    let (target, rebuild): (E, Box<dyn Fn(E) -> Stmt>) = match &program[i] {
+                        Stmt::Expr(E::Assign(n, v)) => {
+                            let n = n.clone();
+                            ((**v).clone(), Box::new(move |e| Stmt::Expr(E::Assign(n.clone(), Box::new(e)))))
+                        }
+                        Stmt::Expr(e) => (e.clone(), Box::new(Stmt::Expr)),
+                        Stmt::Output(n, Some(v)) => {
+                            let n = n.clone();
+                            (v.clone(), Box::new(move |e| Stmt::Output(n.clone(), Some(e))))
+                        }
+                        _ => continue,
+                    };
+                    let mut paths = vec![];
+                    strict_paths(&target, &mut vec![], &mut paths);
+                    let lits: Vec<Vec<usize>> = paths.into_iter().filter(|p| matches!(get_path(&target, p), E::Num(_) | E::Str(_) | E::Bool(_))).collect();
+                    if !lits.is_empty() {
+                        let mut replaced = target.clone();
+                        let mut hoists = vec![];
+                        for (j, p) in lits.iter().enumerate().take(12) {
+                            let name = format!("lk{}_{}", i, j);
+                            hoists.push(Item::plain(Role::Hoist(i), Stmt::Expr(assign(&name, get_path(&target, p).clone()))));
+                            replaced = replace_path(&replaced, p, id(&name));
+                        }
+                        let mut items = p_items(program);
+                        let pos = items.iter().position(|it| it.role == Role::P(i)).unwrap();
+                        items[pos].stmt = rebuild(replaced);
+                        for (k2, h) in hoists.into_iter().enumerate() {
+                            items.insert(pos + k2, h);
+                        }
+                        envs.push(base("let-abstract-literals", vec![ThreadPlan { hash_seed: 0, clock: ClockScript::canonical(), sessions: vec![items] }], vec![0]));
+                    }
+                }
                 for _ in 0..rng.range(1, 3) {
                     let i = *rng.pick(&cands);
                     let (target, rebuild): (E, Box<dyn Fn(E) -> Stmt>) = match &program[i] {
@@ -670,7 +707,9 @@ pub fn gen_envs(rng: &mut Rng, program: &[Stmt], inputs_json: &str) -> Vec<Scena
                     strict_paths(&target, &mut vec![], &mut paths);
                     // prefer non-trivial sub-expressions
                     let nontrivial: Vec<&Vec<usize>> = paths.iter().filter(|p| size(get_path(&target, p)) >= 2 || matches!(get_path(&target, p), E::Id(_))).collect();
-                    let path = if !nontrivial.is_empty() && rng.chance(4, 5) { (*rng.pick(&nontrivial)).clone() } else { rng.pick(&paths).clone() };
+                    // literals too: behaviour keyed on the syntactic form of an operand shows only
+                    // when a literal is replaced by a name
+                    let path = if !nontrivial.is_empty() && rng.chance(3, 5) { (*rng.pick(&nontrivial)).clone() } else { rng.pick(&paths).clone() };
                     let sub = get_path(&target, &path).clone();
                     if matches!(sub, E::Spread(_)) {
                         continue;
@@ -1158,7 +1197,7 @@ pub fn run_one(seed: u64, run: u64, agg: &mut Batch, keep_hashes: bool) {
         for t in &sc.threads {
             agg.c.distinct("hash_seeds", &t.hash_seed.to_string());
         }
-        if matches!(sc.kind.as_str(), "hash-seed" | "clock" | "let-abstract" | "eval-twice") || (sc.kind == "process-history" && !prior.is_empty()) {
+        if matches!(sc.kind.as_str(), "hash-seed" | "clock" | "let-abstract" | "let-abstract-literals" | "eval-twice") || (sc.kind == "process-history" && !prior.is_empty()) {
             nontrivial = true;
         }
         if nontrivial {
